@@ -341,3 +341,208 @@ class C02Clauses(IdentityTable):
 
 
 TABLE["C02"] = [C02Clauses]
+
+
+# ======================================================================
+# C15 — pickle / copy / JSON round trips preserve identity, names, magnitude type
+# ======================================================================
+class C15Clauses(IdentityTable):
+    PROP = "C15"
+
+    def __init__(self, interp):
+        super().__init__(interp)
+        self.before = None
+        self.json_state = None
+
+    def _json_state(self):
+        import json
+
+        return (id(json._default_encoder), id(json._default_decoder),
+                id(json.loads.__kwdefaults__.get("object_hook")) if json.loads.__kwdefaults__ else None)
+
+    def before_op(self, op, prepared):
+        self.before = None
+        if op["op"] in ("roundtrip", "json_nested") and prepared:
+            x = prepared[0][0]
+            self.before = (getattr(x, "names", None), getattr(x, "symbols", None),
+                           getattr(x, "name", None), getattr(x, "symbol", None))
+            self.json_state = self._json_state()
+
+    def after_op(self, op, prepared, kind, value, mval, exc, info, rec):
+        name = op["op"]
+        I = self.I
+        L = I.L
+        if rec.get("injected"):
+            return None
+        out = {}
+        if name in ("roundtrip", "json_nested"):
+            codec = op.get("codec", "json_nested")
+            I.count("C15.roundtrip.checked")
+            if self.json_state is not None and self._json_state() != self.json_state:
+                I.violation("C15.codec-state", "C15/%s/codec-state-leaked" % codec, {"op": op})
+                out["C15.codec-state"] = "VIOLATED"
+            if exc is not None:
+                cls = self.text_class(prepared[0][0]) if op.get("kind") == "qty" and codec.startswith("json") else None
+                I.violation("C15.roundtrip", "C15/%s/%s/raised:%s/%s" % (
+                    codec, op.get("kind"), type(exc).__name__, cls or "plain"),
+                    {"op": op, "message": str(exc)[:200]})
+                out["C15.roundtrip"] = "VIOLATED"
+                return out
+            x = info["_orig"]
+            k = op["kind"]
+            if k in ("unit", "prefix", "dim"):
+                if value is not x:
+                    I.violation("C15.identity", "C15/%s/%s/identity" % (codec, k),
+                                {"op": op, "nf": M.nf_str(mval) if k == "unit" and mval else None})
+                    out["C15.identity"] = "VIOLATED"
+                after = (getattr(x, "names", None), getattr(x, "symbols", None),
+                         getattr(x, "name", None), getattr(x, "symbol", None))
+                if after != self.before:
+                    I.violation("C15.names", "C15/%s/%s/names-changed" % (codec, k),
+                                {"before": self.before, "after": after})
+                    out["C15.names"] = "VIOLATED"
+            elif k == "qty":
+                self.check_qty(op, codec, x.magnitude, x.unit, value, out, mval)
+            if not out:
+                out["C15.roundtrip"] = "ok"
+            return out
+        if name == "load":
+            if exc is not None:
+                blob = prepared[0][0]
+                cls = None
+                I.count("C15.load.checked")
+                I.violation("C15.load", "C15/%s/%s/load-raised:%s/%s%s" % (
+                    blob["codec"], blob["kind"], type(exc).__name__, blob.get("text_class") or "plain",
+                    "/restarted" if I.restarted else ""), {"op": op, "message": str(exc)[:200]})
+                return {"C15.load": "VIOLATED"}
+            blob = info["_blob"]
+            I.count("C15.load.checked")
+            if I.restarted:
+                I.count("C15.load.after-restart.checked")
+                I.probe("blob-decoded-in-restarted-world")
+            if kind == "unit" and mval is not None:
+                r = self.check_value(op, "unit", value, mval, rec, "load:" + blob["codec"] + ("/restarted" if I.restarted else ""))
+                # the decoded unit carries the dimension the serialized one had
+                try:
+                    want = I.model.dim_of(mval)
+                    got = M.d_norm(value.dimension.exponents)
+                    if got != want:
+                        I.violation("C15.load", "C15/%s/unit/wrong-dimension-after-load%s" % (
+                            blob["codec"], "/restarted" if I.restarted else ""),
+                            {"nf": M.nf_str(mval), "got": list(got), "want": list(want)})
+                        return {"C15.load": "VIOLATED"}
+                except (KeyError, AttributeError):
+                    pass
+                # usable?
+                try:
+                    value.dimension, value.prefix, value.factors, value.names
+                except AttributeError as e:
+                    I.violation("C15.load", "C15/%s/unit/unusable-object%s" % (
+                        blob["codec"], "/restarted" if I.restarted else ""), {"missing": str(e)})
+                    return {"C15.load": "VIOLATED"}
+                return r
+            if kind == "qty":
+                want_t, want_r = blob["m"]
+                got_t, got_r = type(value.magnitude).__name__, repr(value.magnitude)
+                if got_t != want_t:
+                    I.violation("C15.magnitude", "C15/%s/qty/magnitude-type" % blob["codec"],
+                                {"want": blob["m"], "got": [got_t, got_r]})
+                    out["C15.magnitude"] = "VIOLATED"
+                elif got_r != want_r:
+                    I.violation("C15.magnitude", "C15/%s/qty/magnitude-value" % blob["codec"],
+                                {"want": blob["m"], "got": [got_t, got_r]})
+                    out["C15.magnitude"] = "VIOLATED"
+                if mval is not None and blob["codec"].startswith("pickle"):
+                    r = self.check_value(op, "unit", value.unit, mval, rec, "load:" + blob["codec"] + ("/restarted" if I.restarted else ""))
+                    out.update(r or {})
+                elif mval is not None:
+                    # JSON / composite carry str(unit): the decoded unit must denote the same product
+                    got = I.nf_of(value.unit)
+                    same = got is not None and got[1] == mval[1] and abs(
+                        float(M.p_value(got[0])) - float(M.p_value(mval[0]))) <= 1e-9 * abs(float(M.p_value(mval[0])))
+                    if not same and got is not None:
+                        # the deliberate kg case: an equal named unit is acceptable
+                        same = self.equal_size(got, mval)
+                        if same and "id" in op:
+                            I.mvals[op["id"]] = got   # from here on the value *is* that named unit
+                    if not same:
+                        I.violation("C15.value", "C15/%s/qty/load-not-equal/%s%s" % (
+                            blob["codec"], blob.get("text_class") or "plain", "/restarted" if I.restarted else ""),
+                            {"want": M.nf_str(mval), "got": M.nf_str(got)})
+                        out["C15.value"] = "VIOLATED"
+                        if "id" in op:
+                            I.mvals[op["id"]] = None
+                return out or {"C15.load": "ok"}
+            return None
+        # everything else that yields units feeds the identity table (so that a later
+        # load / rebuild of the same normal form is compared with it)
+        if exc is None and mval is not None and kind in ("unit", "qty", "pair") and name in ALGEBRA:
+            return self.check_value(op, kind, value, mval, rec, name)
+        return None
+
+    def equal_size(self, a, b):
+        """kilo*gram vs kilogram: equal by the library's own equality of 1*unit."""
+        try:
+            ua, ub = self.unit_from_nf(a), self.unit_from_nf(b)
+            return ua is not None and ub is not None and ((1 * ua) == (1 * ub)) is True
+        except Exception:
+            return False
+
+    def unit_from_nf(self, nf):
+        L = self.I.L
+        u = L.One
+        for t, e in nf[1]:
+            u = u * L.Unit._by_name[t] ** e
+        for b, e in nf[0]:
+            u = L.Prefix(b, int(e) if e.denominator == 1 else float(e)) * u
+        return u
+
+    def text_class(self, q):
+        try:
+            from sim.clauses_c13 import render_class
+
+            return render_class(self.I, q.unit)
+        except Exception:
+            return None
+
+    def check_qty(self, op, codec, xm, xu, y, out, mval):
+        I = self.I
+        if type(y.magnitude) is not type(xm):
+            I.violation("C15.magnitude", "C15/%s/qty/magnitude-type" % codec,
+                        {"want": mag_desc(xm), "got": mag_desc(y.magnitude)})
+            out["C15.magnitude"] = "VIOLATED"
+            return
+        exact_unit = not codec.startswith("json")
+        if exact_unit:
+            if y.unit is not xu:
+                I.violation("C15.identity", "C15/%s/qty/unit-identity" % codec, {"nf": M.nf_str(mval) if mval else None})
+                out["C15.identity"] = "VIOLATED"
+            if repr(y.magnitude) != repr(xm):
+                I.violation("C15.magnitude", "C15/%s/qty/magnitude-value" % codec,
+                            {"want": mag_desc(xm), "got": mag_desc(y.magnitude)})
+                out["C15.magnitude"] = "VIOLATED"
+        else:
+            # JSON carries str(unit): an equal quantity of the same magnitude type
+            try:
+                same = (y == I.L.Quantity(xm, xu)) is True
+            except Exception as e:
+                same = False
+            if same and "id" in op:
+                got = I.nf_of(y.unit)
+                if got is not None and mval is not None and got != mval:
+                    I.mvals[op["id"]] = got      # e.g. kilo*gram came back as the named kilogram
+            if not same:
+                from sim.clauses_c13 import render_class
+
+                cls = render_class(I, xu) or "plain"
+                I.violation("C15.value", "C15/%s/qty/not-equal/%s" % (codec, cls),
+                            {"x": [mag_desc(xm), M.nf_str(I.nf_of(xu))],
+                             "y": [mag_desc(y.magnitude), M.nf_str(I.nf_of(y.unit))]})
+                out["C15.value"] = "VIOLATED"
+                if "id" in op:
+                    I.mvals[op["id"]] = None   # do not let a wrong decode cascade into later checks
+
+
+from sim.world_a import mag_desc  # noqa: E402
+
+TABLE["C15"] = [C15Clauses]
